@@ -62,6 +62,39 @@ pub fn payload(rng: &mut Rng, class: u64, len: usize) -> Vec<u8> {
             code.iter().cycle().take(len).cloned().collect()
         }
         5 => vec![0xffu8; len],
+        7 => {
+            // random bytes followed by a long run of zeros: the base64 text ends in 'A's
+            let mut v = rng.bytes(len - len / 3);
+            v.resize(len, 0);
+            v
+        }
+        8 => {
+            // zero runs around the 8- and 16-bit run-length boundaries (254..258, 65534..65538)
+            let mut v = Vec::with_capacity(len);
+            while v.len() < len {
+                let run = *rng.pick(&[254usize, 255, 256, 257, 258, 65_534, 65_535, 65_536, 65_537, 3]);
+                for _ in 0..run.min(len - v.len()) {
+                    v.push(0);
+                }
+                if v.len() < len {
+                    v.push(1 + (rng.next() % 254) as u8);
+                }
+            }
+            v
+        }
+        9 => {
+            // bytes that look like codec prefixes and base64 padding at both ends
+            let mut v = rng.bytes(len);
+            for (i, b) in [0u8, 1, 2, 3, b'=', b'A'].iter().enumerate() {
+                if i < len {
+                    v[i] = *b;
+                }
+                if len > 12 {
+                    v[len - 1 - i] = *b;
+                }
+            }
+            v
+        }
         _ => {
             // zero runs separated by single non-zero bytes: nada beats zstd on short inputs
             let mut v = Vec::with_capacity(len);
@@ -80,7 +113,7 @@ pub fn payload(rng: &mut Rng, class: u64, len: usize) -> Vec<u8> {
 }
 
 fn class_name(c: u64) -> &'static str {
-    ["random", "zeros", "zero-heavy", "repetitive", "bytecode", "all-ff", "zero-runs"][c as usize % 7]
+    ["random", "zeros", "zero-heavy", "repetitive", "bytecode", "all-ff", "zero-runs", "trailing-zeros", "run-length-boundaries", "prefix-and-padding-lookalikes"][c as usize % 10]
 }
 
 fn bucket(len: usize) -> String {
@@ -195,7 +228,7 @@ fn direct(ctx: &WorkerCtx, rep: &mut WorkerReport) {
     // small and medium payloads
     let n_small = if ctx.thorough() { 600 } else { 60 };
     for i in 0..n_small {
-        let class = i % 7;
+        let class = i % 10;
         let len = match rng.below(8) {
             0 => 0,
             1 => 1,
@@ -218,7 +251,7 @@ fn direct(ctx: &WorkerCtx, rep: &mut WorkerReport) {
     let near: Vec<usize> = vec![LIMIT - 40, LIMIT - 17, LIMIT - 2, LIMIT - 1, LIMIT, LIMIT + 1, LIMIT + 2];
     let n_near = if ctx.thorough() { 10 } else { 2 };
     for j in 0..n_near {
-        let class = (ctx.shard + j) % 7;
+        let class = (ctx.shard + j) % 10;
         let len = near[((ctx.shard * 3 + j * 5 + ctx.seed) % near.len() as u64) as usize];
         let b = payload(&mut rng, class, len);
         if len <= LIMIT {
@@ -378,7 +411,7 @@ pub fn native_corpus() {
             assert!(d.len() <= LIMIT, "decoder produced more than the limit");
         }
     };
-    for class in 0..7u64 {
+    for class in 0..10u64 {
         for len in [0usize, 1, 2, 63, 64, 65, 1000, 5000, 70_000] {
             let b = payload(&mut rng, class, len);
             dec(&nada_pack(&b));
